@@ -121,9 +121,13 @@ def _ev(s, sigma):
                     raise Undef("zero to a negative power")
                 if abs(av) < (1e-6 if approx else ILL) * asc:
                     ill = True
+                if not approx and max(av.numerator.bit_length(), av.denominator.bit_length(), asc.numerator.bit_length()) * abs(e) > MAX_BITS:
+                    raise Undef("magnitude beyond the oracle's bound")
                 v = av ** e
                 sc = abs(v) * (1 + abs(e) * asc / abs(av))
             else:
+                if not approx and e > 1 and max(asc.numerator.bit_length(), asc.denominator.bit_length()) * e > MAX_BITS:
+                    raise Undef("magnitude beyond the oracle's bound")
                 v = av ** e
                 sc = (asc ** e) * max(1, e)
         else:
@@ -386,3 +390,59 @@ def folded(before, after):
         if cb.get(v, 0) < n:
             return True
     return False
+
+
+def magnitude_bits(s, sigma, limit=60000):
+    """Conservative upper bound on log2 of the magnitude (numerator or denominator) of
+    any intermediate value when `s` is evaluated exactly at sigma.  Returns None when a
+    bound cannot be established below `limit` (the workload then does not hand the tree to
+    the implementation: exact integer powers of that size would take minutes)."""
+    try:
+        return _mag(s, sigma, limit)
+    except _TooBig:
+        return None
+
+
+class _TooBig(Exception):
+    pass
+
+
+def _mag(s, sigma, limit):
+    k = s[0]
+    if k == "Constant":
+        v = s[1][1]
+        if not isinstance(v, Fraction):
+            return 1
+        return max(v.numerator.bit_length(), v.denominator.bit_length())
+    if k == "Variable":
+        v = sigma.get(s[1])
+        if v is None:
+            return 1
+        v = Fraction(v)
+        return max(v.numerator.bit_length(), v.denominator.bit_length())
+    if k in ("Negate", "Abs", "Sgn"):
+        c = s[2] if s[2] is not None else s[3]
+        return _mag(c, sigma, limit) if c is not None else 1
+    if k == "Factorial":
+        c = s[2] if s[2] is not None else s[3]
+        b = _mag(c, sigma, limit) if c is not None else 1
+        if b > 7:  # argument may exceed 127
+            raise _TooBig()
+        return 800
+    if s[2] is None or s[3] is None:
+        return 1
+    a = _mag(s[2], sigma, limit)
+    b = _mag(s[3], sigma, limit)
+    if k in ("Add", "Subtract"):
+        r = a + b + 1
+    elif k in ("Multiply", "Divide", "Equal"):
+        r = a + b
+    elif k == "Power":
+        if b > 12:  # |exponent| may exceed 4096
+            raise _TooBig()
+        r = a * (2 ** b)
+    else:
+        r = a + b
+    if r > limit:
+        raise _TooBig()
+    return r
